@@ -292,8 +292,14 @@ func runType(t *testing.T, typ uint16, quickRuns, thoroughRuns, perRun int) {
 		if p.foreignKeyResp != nil {
 			finalize(t, s, p.a, p.foreignKeyResp, "foreign-issuer-key", true, honest)
 		}
-		finalize(t, s, p.a, p.respB, "response-to-other-request", true, honest)
-		finalize(t, s, p.b, p.respA, "response-to-other-request", true, p.respB)
+		// (two drawn requests can be IDENTICAL - special nonces and blinds repeat - and then each one's response is a genuine
+		// response to the other)
+		if !bytes.Equal(p.a.RequestBytes, p.b.RequestBytes) {
+			finalize(t, s, p.a, p.respB, "response-to-other-request", true, honest)
+			finalize(t, s, p.b, p.respA, "response-to-other-request", true, p.respB)
+		} else {
+			s.Exclude("identical-requests-drawn")
+		}
 		for i := 0; i < perRun; i++ {
 			switch k := gen.Uniform(t, 10, "class"); {
 			case k <= 3:
